@@ -21,6 +21,8 @@ RULES = {
              'branch of the store has no refusing exit',
     'C02.e': 'get-safe reports the version the store compares against: the reader that builds Response::Value takes the version from '
              'the map entry whenever the lookup finds one (tombstones included); a literal version is used only where the lookup found nothing',
+    'C02.f': 'a successful mutation makes the version grow: the version stored by the increment for an existing key is old.version + 1 '
+             '(an addition on the old entry\'s version); a plain copy of the old version is stored only under the in-conflict-marker test',
     'C02.d': 'a success reply of the store / the increment is built only on paths that passed an insert into Database.map '
              '(an acknowledged write is a committed write with a new version)',
 }
@@ -263,6 +265,28 @@ def success_implies_write(ck, m):
               'every success reply of %s is preceded by an insert into Database.map' % short(b.id) if ins and succ and not bad else
               '%s can answer success (%s) on a path that writes nothing: the key keeps its version, so a second writer presenting the '
               'same base version succeeds too' % (short(b.id), bad), '%s:%s' % (b.file, b.line))
+    # ---- C02.f -------------------------------------------------------------------------
+    ib = increment_fn(m)
+    aggs = [(bi2, s['r']) for bi2, bl in enumerate(ib.blocks) if not bl.get('cleanup') for s in bl['s']
+            if s['k'] == 'assign' and s['r']['k'] == 'agg' and s['r'].get('adt', '').endswith('bo::Value') and 'version' in s['r'].get('fields', [])]
+    marker_edges = []
+    for bi2, t2 in ib.calls():
+        if callee(t2).endswith('is_in_conflict_resolution'):
+            for (s2, tt, ft) in core.bool_switches(ib, bi2):
+                marker_edges.append((tt, ft))
+    for bi2, rv in aggs:
+        vop = rv['ops'][rv['fields'].index('version')]
+        grows = any((r[0] == 'call' and callee_decl(ib.term(r[1])).split('::')[-1] in ('saturating_add', 'checked_add', 'wrapping_add'))
+                    or (r[0] == 'arith') for r in origins(ib, vop, stop_at_calls=True))
+        copies = _plain_version_copies(ib, vop, bi2)
+        bad = [ib.loc(x) for x in copies if not any(ib.dominates(tt, x) and not ib.dominates(ft, x) for tt, ft in marker_edges)]
+        okf = grows and not bad
+        ck.ob('C02.f', short(ib.id), 'version-grows', okf,
+              'the increment stores old.version + 1 (the old version itself only while the key is in conflict resolution)' if okf else
+              'the increment can store the OLD version unchanged (%s; addition found: %s): an acknowledged increment leaves the key at the '
+              'version a reader saw before it, so a set-safe based on that read is accepted and overwrites the increment'
+              % (bad or 'no addition on the version', grows), ib.loc(bi2))
+    ck.floor('C02.f', len(aggs), 1, 'Value aggregates built by the increment for an existing key')
     # ---- C02.e -------------------------------------------------------------------------
     ng = 0
     for b in m.prog.user_bodies():
@@ -301,6 +325,31 @@ def success_implies_write(ck, m):
 
 def node_body(b):
     return not b.id.startswith(('nundb::client::', 'nundb::command_line::', '<nundb::client::'))
+
+
+def _plain_version_copies(b, operand, here):
+    """blocks where the `version` field of a Value is copied, unchanged, into the def-use chain that ends in `operand`"""
+    out = set()
+    seen = set()
+
+    def op(o, blk):
+        p = o.get('c') or o.get('m')
+        if not p:
+            return
+        if any(e[0] == 'f' and len(e) > 3 and e[3] == 'version' and e[2].endswith('bo::Value') for e in p.get('p', ())):
+            out.add(blk)
+            return
+        local(p['l'])
+
+    def local(l):
+        if l in seen:
+            return
+        seen.add(l)
+        for (bi, si, kind, pl) in b.defs().get(l, []):
+            if kind == 'assign' and pl['k'] in ('use', 'cast'):
+                op(pl['o'], bi)
+    op(operand, here)
+    return out
 
 
 def _literal_entry_blocks(b, operand):
